@@ -151,7 +151,10 @@ func writeCases(p *Prop, cases []Case, out string) {
 			}
 		}
 		b.WriteString("\n].\n")
-		fmt.Fprintf(&b, "Definition R := Eval vm_compute in run_cases check_case %d cases.\nSet Printing Width 100000.\nSet Printing Depth 1000000.\nPrint R.\nDefinition NFAIL := Eval vm_compute in @List.length _ R.\nPrint NFAIL.\n", i)
+		// indices printed by Coq are relative to the shard (a large unary nat base overflows coqc's
+		// stack); the driver adds the base it reads from this comment
+		fmt.Fprintf(&b, "(* BASE %d *)\n", i)
+		fmt.Fprintf(&b, "Definition R := Eval vm_compute in run_cases check_case 0 cases.\nSet Printing Width 100000.\nSet Printing Depth 1000000.\nPrint R.\nDefinition NFAIL := Eval vm_compute in @List.length _ R.\nPrint NFAIL.\n")
 		os.WriteFile(filepath.Join(out, fmt.Sprintf("cases_%03d.v", nsh)), []byte(b.String()), 0o644)
 		nsh++
 	}
